@@ -26,12 +26,23 @@ def grants(value, how):
             import yaml
             rules = policy.Rules.load(yaml.safe_dump({'the_rule': value, 'zzz': 'role:zz'},
                                                      default_flow_style=False))
+        elif how == 'json+default':
+            # a permissive default rule must not be what answers for a key the file does define
+            rules = policy.Rules.load(json.dumps({'the_rule': value, 'default': '@'}), 'default')
+        elif how == 'yaml+default':
+            import yaml
+            rules = policy.Rules.load(yaml.safe_dump({'default': '@', 'the_rule': value}), 'default')
+        elif how == 'from_dict+default':
+            rules = policy.Rules.from_dict({'the_rule': value, 'default': '@'}, 'default')
         else:
             raise ValueError(how)
     except Exception as e:   # noqa
         return ('rejected', type(e).__name__)
-    if not isinstance(rules['the_rule'], _checks.BaseCheck):
-        return ('crash', 'loaded a %s, not a check' % type(rules['the_rule']).__name__)
+    got = dict.get(rules, 'the_rule')
+    if got is None and how.endswith('+default'):
+        pass        # the key was dropped: enforce below then answers from the default rule
+    elif not isinstance(got, _checks.BaseCheck):
+        return ('crash', 'loaded a %s, not a check' % type(got).__name__)
     e = enforcer()
     e.set_rules(rules, use_conf=False)
     out = []
@@ -49,7 +60,7 @@ def corrupt(rng, toks):
         op = rng.randrange(5)
         pos = rng.randrange(len(toks) + 1)
         junk = rng.choice(['(', ')', 'and', 'or', 'not', 'AND', 'role:x', '"q"', "'q'", 'x', '@', '!',
-                           'not)', '(or', '()', ')('])
+                           'not)', '(or', '()', ')(', '""', "''", '("")', "''))", '"', "'"])
         if op == 0 and toks:
             del toks[min(pos, len(toks) - 1)]
         elif op == 1:
@@ -80,7 +91,8 @@ def run(run, binfo):
     # one-token rules
     singles = ['(', ')', 'and', 'or', 'not', 'AND', 'Or', 'nOt', '"abc"', "'abc'", '""', "''", 'abc',
                'a:', ':b', ':', '@', '!', '@@', '!!', 'role', 'rule', '%(x)s', '()', ')(', '((', '))',
-               "'a:b'", '"a b"', 'not)', '(not', 'x' * 50]
+               "'a:b'", '"a b"', 'not)', '(not', 'x' * 50, 'not ""', "not ''", '@ or ""', "@ and not ''", '(not "")',
+               '"" or @', "'' and @", 'not not ""', '"" and ""', 'not "x"', "@ or 'x'", 'not ("")', '("") or @']
     texts += singles
     # corruptions of valid rules
     ncorr = 1500 if tier == 'quick' else 30000
@@ -118,6 +130,8 @@ def run(run, binfo):
             if any('Σ' in t or 'İ' in t for _ in [0]) and False:
                 continue
             g = grants(t, 'from_dict')
+            if g[0] == 'decisions' and not any(g[1]):
+                g = grants(t, 'from_dict+default')
             if g[0] != 'decisions' or any(g[1]):
                 run.violation('nonsentence-grants', 'the non-sentence %r does not deny: %r' % (t, g),
                               {'kind': 'failing-input', 'suite': 'spec-c02',
@@ -149,7 +163,7 @@ def run(run, binfo):
         i = impl_parse(v)
         if m != i:
             disagreements.append((v, m, i))
-        for how in ('from_dict', 'json', 'yaml'):
+        for how in ('from_dict', 'json', 'yaml', 'from_dict+default', 'json+default', 'yaml+default'):
             run.evaluations += 1
             g = grants(v, how)
             if shaped:
